@@ -17,8 +17,12 @@ RULE = (
     "offices, partial reporters with pev 50-99.9): unit lower<=upper; aggregate rows lower<pred<upper, |pred_margin|<=1, "
     "pred_turnout>=0 finite; b-interval contains a-interval for a<b at unit and aggregate level. (c) model-level with "
     "generated draw matrices respecting the producer's invariants (skewed, constant, tied draws): the same ordering and "
-    "nesting on the real interval functions. Non-trivial: (b) >=1 nonreporting unit and >=2 levels; (c) non-constant "
-    "draws and >=2 levels. Distinct = (B, alpha set, structure hash)."
+    "nesting on the real interval functions. (d) the end-to-end oracle of (b) on county-level elections run with the "
+    "margin extrapolation switched on: earlier versions of the feed are generated for the reporting counties (observed "
+    "near / far from the expected-vote level of the outstanding counties, some irregular) and handed to the real "
+    "VersionedDataHandler in place of its S3 read, so unit draws are ensembled with extrapolated predictions resting on "
+    "many, one or no county. Non-trivial: (b) >=1 nonreporting unit and >=2 levels; (c) non-constant "
+    "draws and >=2 levels; (d) the extrapolation produced a prediction for >=1 outstanding unit. Distinct = (B, alpha set, structure hash)."
 )
 ASSUMPTIONS = [
     "unobserved-bound parameters (y/z_unobserved_*) are left at their defaults",
@@ -29,8 +33,8 @@ FLOOR = {"quick": 60, "thorough": 400}
 
 def parts(tier):
     if tier == "quick":
-        return [{"name": "ranks", "n": 16}, {"name": "e2e", "n": 256}, {"name": "model", "n": 4000}]
-    return [{"name": "ranks", "n": 16}, {"name": "e2e", "n": 4000}, {"name": "model", "n": 60000}]
+        return [{"name": "ranks", "n": 16}, {"name": "e2e", "n": 256}, {"name": "extrap", "n": 128}, {"name": "model", "n": 4000}]
+    return [{"name": "ranks", "n": 16}, {"name": "e2e", "n": 4000}, {"name": "extrap", "n": 2000}, {"name": "model", "n": 60000}]
 
 
 def run_ranks(tier, ctx, si, sc):
@@ -71,7 +75,77 @@ E2E = gen.election_case(
 )
 
 
-def check_e2e(case, ctx):
+@gen.st.composite
+def _extrap_strategy(draw):
+    """County-level bootstrap elections with the margin extrapolation switched on: earlier versions of the feed are
+    generated for some of the reporting counties (observed near the expected-vote level of an outstanding county or
+    far from it; sometimes irregular), so outstanding counties at >= 75% get an extrapolated prediction from many,
+    one or no reporting county."""
+    st = gen.st
+    case = draw(
+        gen.election_case(
+            estimators=("bootstrap",),
+            unit_types=("county",),
+            thresholds=(100,),
+            max_states=2,
+            Bs=(10, 40),
+            alphas_pool=(0.5, 0.7, 0.8, 0.9, 0.95),
+            max_alphas=2,
+            min_nonrep=2,
+            statuses=(gen.N, gen.N, gen.N, gen.NH, gen.N0, gen.A),
+            allow_extra=False,
+            outliers=(False,),
+            lopsided=0.2,
+        )
+    )
+    case["req"]["mp"]["extrapolation"] = True
+    grid = [30, 55, 78, 82, 93, 96, 99]
+    versions = []
+    for u in case["units"]:
+        f = u.get("feed")
+        if f is None or draw(st.integers(0, 2)) == 0:
+            continue
+        reporting = f["pev"] >= 100
+        k = draw(st.integers(1, 3))
+        pevs = sorted(set(draw(st.lists(st.sampled_from(grid), min_size=k, max_size=k))))
+        pevs = [p for p in pevs if p < f["pev"]]
+        irregular = reporting and draw(st.integers(0, 7)) == 0
+        for j, p in enumerate(pevs):
+            fr = p / min(f["pev"], 100) if f["pev"] else 0
+            jd = draw(st.sampled_from([-0.04, -0.01, 0.0, 0.02, 0.05]))
+            rd = int(f["rd"] * min(max(fr + jd, 0), 1))
+            rg = int(f["rg"] * min(max(fr - jd, 0), 1))
+            ro = int(f["ro"] * fr)
+            if irregular and j == len(pevs) - 1:
+                rd, rg, ro = f["rd"] * 2 + 5, f["rg"] * 2 + 5, f["ro"]  # a later downward revision
+            versions.append({"id": u["id"], "pev": p, "rd": rd, "rg": rg, "ro": ro, "minute": 10 * j + draw(st.integers(0, 9))})
+    case["versions"] = versions
+    return case
+
+
+EXTRAP = _extrap_strategy()
+
+
+def check_extrap(case, ctx):
+    """The same oracle as the end-to-end part, on runs whose unit draws are ensembled with the extrapolation."""
+    from elexmodel.models.BootstrapElectionModel import BootstrapElectionModel
+
+    seen = []
+    orig = BootstrapElectionModel._extrapolate_unit_margin
+
+    def spy(self, reporting_units, nonreporting_units):
+        out = orig(self, reporting_units, nonreporting_units)
+        seen.append((np.asarray(out[0], float).reshape(-1), np.asarray(out[1], float).reshape(-1)))
+        return out
+
+    BootstrapElectionModel._extrapolate_unit_margin = spy
+    try:
+        check_e2e(case, ctx, extrap_seen=seen)
+    finally:
+        BootstrapElectionModel._extrapolate_unit_margin = orig
+
+
+def check_e2e(case, ctx, extrap_seen=None):
     ctx.evaluated()
     if "unit" not in case["req"]["aggregates"]:
         case["req"]["aggregates"] = case["req"]["aggregates"] + ["unit"]
@@ -120,6 +194,19 @@ def check_e2e(case, ctx):
     partial = sum(1 for r in recs if r["cat"] == ref.EXPECTED and not r["reporting"] and 50 <= r["pev"] < 100)
     if partial:
         ctx.label("has_partial_reporter_50_100")
+    if extrap_seen is not None:
+        # the extrapolation part counts as non-trivial only when the rule really produced a prediction for a unit
+        pred = np.concatenate([p for p, _ in extrap_seen]) if extrap_seen else np.array([])
+        std = np.concatenate([s_ for _, s_ in extrap_seen]) if extrap_seen else np.array([])
+        n_pred = int(np.isfinite(pred).sum())
+        n_nostd = int((np.isfinite(pred) & ~np.isfinite(std)).sum())
+        if n_pred:
+            ctx.label("extrapolated_units", n_pred)
+        if n_nostd:
+            ctx.label("extrapolated_from_a_single_county")
+        if n_pred and n_non >= 1:
+            ctx.nontrivial(["extrap", req["mp"].get("B"), alphas, min(n_pred, 3), n_nostd > 0, common.structure_signature(case, recs)], common.summarize_case(case, recs) | {"part": "extrap", "extrapolated_units": n_pred, "from_a_single_county": n_nostd, "versions": len(case["versions"])})
+        return
     if n_non >= 1 and len(alphas) >= 2:
         ctx.nontrivial([req["mp"].get("B"), alphas, common.structure_signature(case, recs)], common.summarize_case(case, recs))
 
@@ -175,12 +262,16 @@ def run_part(name, seed, n, tier, ctx, si, sc):
         run_ranks(tier, ctx, si, sc)
     elif name == "e2e":
         hyp_run(E2E, lambda case: check_e2e(case, ctx), seed, n, tier)
+    elif name == "extrap":
+        hyp_run(EXTRAP, lambda case: check_extrap(case, ctx), seed, n, tier)
     else:
         hyp_run(MODEL, lambda case: check_model(case, ctx), seed, n, tier)
 
 
 def replay(case, ctx):
-    if "units" in case:
+    if "versions" in case:
+        check_extrap(case, ctx)
+    elif "units" in case:
         check_e2e(case, ctx)
     elif "contests" in case:
         check_model(case, ctx)
